@@ -16,7 +16,8 @@
 //	        deadline ms | cancel ms (client cancellation after ms)
 //
 // Output: res=<class> t=<ontime|late|hang> g=<ok|lazy|leak:N> [stk=…]
-//   - late: the call returned later than ms + slack; hang: it had not returned 30 s after that
+//   - late: the call returned later than ms + slack (15 s), three times in a row; hang: it had not returned 15 s
+//     (thorough: 30 s) after that
 //   - leak: runtime.NumGoroutine() did not settle back to the value before the call within 10 s, and running
 //     the same request again grew it again (a one-off growth is a lazily started background goroutine: `lazy`)
 package main
@@ -46,9 +47,9 @@ import (
 	"github.com/openfga/openfga/verifharness/hx"
 )
 
-var slack = 4 * time.Second
+var slack = 15 * time.Second // generous: the machine may be heavily loaded; a real hang is unbounded
 
-var hangCap = 6 * time.Second
+var hangCap = 15 * time.Second
 
 var knownShapeHangs = 0
 var maxKnownShapeHangs = 1
@@ -412,7 +413,39 @@ func runOnce(sv *srv, storeID string, rq request, mode string, ms int) outcome {
 	return o
 }
 
+var casesOnServer = map[string]int{}
+var memGuard = ""
+
+// recycle drops a server (and its memory datastore with every store written so far) after 300 cases
+func recycle(cfg string) {
+	mu.Lock()
+	defer mu.Unlock()
+	casesOnServer[cfg]++
+	if casesOnServer[cfg] < 300 {
+		return
+	}
+	casesOnServer[cfg] = 0
+	if sv, ok := servers[cfg]; ok {
+		sv.s.Close()
+		delete(servers, cfg)
+		for k := range stores {
+			if k.cfg == cfg {
+				delete(stores, k)
+			}
+		}
+	}
+}
+
 func exec(line string, st *hx.Stats) string {
+	if memGuard != "" {
+		return memGuard
+	}
+	var ms0 runtime.MemStats
+	runtime.ReadMemStats(&ms0)
+	if ms0.HeapInuse > 10<<30 {
+		memGuard = fmt.Sprintf("res=memory-guard t=ontime g=ok heapGB=%d", ms0.HeapInuse>>30)
+		return memGuard
+	}
 	t := fga.NewToks(line)
 	t.Expect("c20")
 	cfg := t.Next()
@@ -425,6 +458,7 @@ func exec(line string, st *hx.Stats) string {
 	mode := t.Next()
 	ms := t.Int()
 	m := fga.DecodeModel(t)
+	recycle(cfg)
 	sv := getServer(cfg)
 	var tuples []fga.Tuple
 	var rq request
@@ -485,11 +519,13 @@ func exec(line string, st *hx.Stats) string {
 		return fmt.Sprintf("res=%s t=hang g=unknown dup=%d stk=%s", o.res, dup, stacks())
 	}
 	if o.t == "late" {
-		// once more: a loaded machine can delay a return; a real hang repeats
-		o2 := runOnce(sv, storeID, rq, mode, ms)
-		if o2.t == "ontime" {
-			o.t = "ontime"
-			st.Inc("late-once")
+		// twice more: a loaded machine can delay a return; a real responsiveness problem repeats
+		for k := 0; k < 2 && o.t == "late"; k++ {
+			o2 := runOnce(sv, storeID, rq, mode, ms)
+			if o2.t == "ontime" {
+				o.t = "ontime"
+				st.Inc("late-once")
+			}
 		}
 	}
 	if o.g1 > o.g0 {
